@@ -697,6 +697,73 @@ fn load_auth_body(short: bool) {
     core::mem::forget(l);
 }
 
+//@ props: C03 C04 C10
+//@ scaled: yes
+//@ functions: layers::encrypt::EncryptionLayerInternal::load_in_cache (real body) called TWICE: what an earlier load leaves behind must not change whether a later chunk is checked
+//@ bounds: SCALED build; inner length n <= 3*20+64; first load at any position / chunk index 0..=3 (authentic or not), then the reader is moved to any position / chunk index 0..=3 (what every seek arm does) and loads again
+//@ stubs: as h_enc_load_auth_refines (ideal MAC; AesGcm256::new via model constructors; single-read read_to_end)
+//@ outside: chunk indices > 3; more than one earlier load (any state an earlier load can leave is covered only as far as one load produces it)
+//@ replay: verif_replay_encrypt::enc_load_history n:u64 q0:u64 ccn0:u32 auth0:bool q:u64 ccn:u32 auth:bool tag_at:usize tag_bits:u8
+#[kani::proof]
+#[kani::unwind(34)]
+#[kani::stub(alloc::fmt::format, nofmt)]
+#[kani::stub(<std::io::Error as std::convert::From<crate::errors::Error>>::from, cheap_from)]
+#[kani::stub(crate::crypto::aesgcm::AesGcm256::new, stub_gcm_new)]
+#[kani::stub(crate::crypto::aesgcm::AesGcm256::decrypt, stub_gcm_decrypt)]
+#[kani::stub(alloc::io::default_read_to_end, model_rte)]
+#[kani::stub(alloc::vec::Vec::resize, shrink_only_resize)]
+fn h_enc_load_auth_history() {
+    let n: u64 = kani::any();
+    let q0: u64 = kani::any();
+    kani::assume(n <= 3 * SPEC_CTS + 64 && q0 <= n);
+    let ccn0: u32 = kani::any();
+    let auth0: bool = kani::any();
+    let q: u64 = kani::any();
+    let ccn: u32 = kani::any();
+    let auth: bool = kani::any();
+    kani::assume(q <= n && ccn0 < 4 && ccn < 4);
+    // whether a chunk is authentic is a fact about the stream, not about the access
+    kani::assume(ccn != ccn0 || auth == auth0);
+    let diff_at: usize = kani::any();
+    let diff_bits: u8 = kani::any();
+    kani::assume(diff_at < 16 && diff_bits != 0);
+    unsafe {
+        TAG_DIFF_AT = diff_at;
+        TAG_DIFF_BITS = diff_bits;
+        AUTHENTIC[ccn0 as usize] = auth0;
+        AUTHENTIC[ccn as usize] = auth;
+    }
+    let mut l = mk_internal(Abs::new(n, q0), ccn0, 0, 0);
+    let r0 = l.load_in_cache();
+    core::mem::forget(r0);
+    kani::cover!(auth0 && ccn0 > ccn && !auth && n - q >= SPEC_TAG, "a later chunk was accepted first, then an altered earlier chunk is loaded");
+    kani::cover!(auth0 && ccn0 < ccn && !auth && n - q >= SPEC_TAG, "an earlier chunk was accepted first, then an altered later chunk is loaded");
+    // move (as the seek arms do), then load again
+    l.inner.pos = q;
+    l.inner.calls = 0;
+    l.current_chunk_number = ccn;
+    unsafe { GCM_NEW_CALLS = 0 };
+    let r = l.load_in_cache();
+    let post = load_spec_auth(q, n, auth);
+    assert!(l.inner.pos == post.inner_pos, "load consumes min(remaining, chunk+tag) bytes of the inner stream");
+    match r {
+        Ok(None) => assert!(post.ret == LoadRet::None, "Ok(None) iff nothing remained"),
+        Ok(Some(())) => {
+            assert!(post.ret == LoadRet::Some, "a chunk is accepted only if its tag verified — whatever was loaded before");
+            assert!(l.chunk_cache.get_ref().len() as u64 == post.cache_len, "cache holds the chunk without its tag");
+        }
+        Err(e) => {
+            core::mem::forget(e);
+            assert!(post.ret == LoadRet::ErrTag, "Err only for a chunk that does not authenticate");
+            assert!(l.chunk_cache.get_ref().is_empty(), "no byte of a rejected chunk is left in the cache");
+        }
+    }
+    unsafe {
+        assert!(GCM_NEW_CALLS == 1 && GCM_LAST_NONCE[8..] == ccn.to_be_bytes(), "the chunk is verified under its own index");
+    }
+    core::mem::forget(l);
+}
+
 /// stand-in for `std::io::copy` where the unauthenticated load skips the tag: two reads of <= 32
 /// bytes forwarded with write_all (std's driver zero-fills an 8 KiB stack buffer in a loop)
 fn copy_tag_skip<R: Read + ?Sized, W: Write + ?Sized>(r: &mut R, w: &mut W) -> io::Result<u64> {
@@ -897,6 +964,54 @@ fn prefix_authentic(i: u32) -> bool {
         okk = false;
     }
     okk
+}
+
+//@ props: C02 C05
+//@ functions: layers::encrypt::EncryptionLayerFailSafeReader::new; <EncryptionLayerFailSafeReader<R> as std::io::Read>::read
+//@ bounds: EMPTY inner stream (an archive cut right after its header: the writer emits nothing until data arrives), both repair modes, buffer 1..=8
+//@ stubs: load_in_cache / load_in_cache_unauthenticated -> load contracts (decided by the refinement harnesses); AesGcm256::new via model constructors; alloc::fmt::format; From<mla::Error> for io::Error
+//@ outside: -
+//@ replay: verif_replay_encrypt::enc_fs_new_empty
+#[kani::proof]
+#[kani::unwind(5)]
+#[kani::stub(alloc::fmt::format, nofmt)]
+#[kani::stub(<std::io::Error as std::convert::From<crate::errors::Error>>::from, cheap_from)]
+#[kani::stub(crate::crypto::aesgcm::AesGcm256::new, stub_gcm_new)]
+#[kani::stub(EncryptionLayerInternal::load_in_cache, contract_load_auth_fs)]
+#[kani::stub(EncryptionLayerInternal::load_in_cache_unauthenticated, contract_load_unauth)]
+fn h_enc_fs_new_empty() {
+    let unauth: bool = kani::any();
+    let mode = if unauth { FailSafeReaderDecryptionMode::DataEvenUnauthenticated } else { FailSafeReaderDecryptionMode::OnlyAuthenticatedData };
+    let cfg = EncryptionReaderConfig { private_keys: Vec::new(), encrypt_parameters: Some(([2u8; 32], [3u8; NONCE_SIZE])), failsafe_mode: mode };
+    let inner: Box<dyn LayerFailSafeReader<'static, FsSrc>> = Box::new(FsSrc);
+    unsafe {
+        FS_LEN = 0;
+        FS_POS = 0;
+    }
+    any_authenticity();
+    let made = EncryptionLayerFailSafeReader::new(inner, &cfg);
+    core::mem::forget(cfg);
+    match made {
+        Ok(mut r) => {
+            let b: usize = kani::any();
+            kani::assume(b >= 1 && b <= 8);
+            let mut buf = [0u8; 8];
+            let res = r.read(&mut buf[..b]);
+            match res {
+                Ok(k) => assert!(k == 0, "bytes out of an empty stream"),
+                Err(e) => {
+                    core::mem::forget(e);
+                    assert!(false, "reading an empty (cut right after the header) stream fails instead of ending");
+                }
+            }
+            kani::cover!(true, "constructed and read");
+            core::mem::forget(r);
+        }
+        Err(e) => {
+            core::mem::forget(e);
+            assert!(false, "the repair reader cannot be built over an empty stream: an archive cut right after its header is not repairable");
+        }
+    }
 }
 
 //@ props: C04 C05 C02
